@@ -720,8 +720,8 @@ class ktensor:
         if idx is None:
             return self.copy()
 
-        if isinstance(idx, (int, tuple, list, np.ndarray)):
-            if isinstance(idx, int):
+        if isinstance(idx, (int, np.integer, tuple, list, np.ndarray)):
+            if isinstance(idx, (int, np.integer)):
                 components = np.array([idx])
             else:
                 components = np.asarray(idx)
@@ -1911,7 +1911,7 @@ class ktensor:
          [0.8137... 0.8...]]
         """
         if mode is not None:
-            if isinstance(mode, int) and mode in range(self.ndims):
+            if isinstance(mode, (int, np.integer)) and mode in range(self.ndims):
                 # work on a copy: neither change the receiver nor share its factors
                 return self.copy().normalize(mode).factor_matrices
             assert False, "Input parameter'mode' must be in the range of self.ndims"
@@ -2568,7 +2568,7 @@ class ktensor:
         if isinstance(other, (ttb.sptensor, ttb.tensor)):
             return other.__mul__(self)
 
-        if isinstance(other, (float, int)):
+        if isinstance(other, (float, int, np.integer, np.floating)):
             return ttb.ktensor(self.factor_matrices, other * self.weights)
 
         assert (
